@@ -1,3 +1,5 @@
 import SrModel.Proto
 import SrModel.Adaptive
 import SrModel.Thermal
+import SrModel.Loops
+import SrModel.PW
